@@ -1,4 +1,4 @@
 SPECIFICATION Spec
 CONSTANTS MaxLen = 3
-          Kinds = {"pass", "fixable", "between", "unfixable", "badtext", "badbg", "translucent", "hsl", "extreme", "twinA", "twinB", "hairres"}
+          Kinds = {"pass", "fixable", "between", "unfixable", "badtext", "badbg", "translucent", "hsl", "extreme", "twinA", "twinB", "hairres", "digits"}
 CHECK_DEADLOCK FALSE
